@@ -10,8 +10,8 @@
    any length) and literal argument tuples / dicts / scalars of any size. *)
 From Coq Require Import ZArith List Bool NArith.
 Import ListNotations.
-Require Import PV.Gen.FormatRe PV.Format.Percent PV.Format.PyPercent PV.Format.Guards.
-Require Import PV.Proofs.FormatPins PV.Proofs.FormatConv PV.Proofs.FormatPercent.
+Require Import PV.Gen.FormatRe PV.Format.Percent PV.Format.PyPercent PV.Format.Guards PV.Format.StrFormat.
+Require Import PV.Proofs.FormatPins PV.Proofs.FormatConv PV.Proofs.FormatPercent PV.Proofs.FormatStr.
 
 (* the regex text / flags / conversion sets / %c range the scanner model was written for *)
 Theorem C17_regex_pinned : regex_text = expected_regex_text /\ regex_flags = [2; 1]%N.
@@ -146,3 +146,47 @@ Example C17_percent_guards_inhabited :
    pa_reports false [bare 115] 0 (ATuple [OInt 1; OInt 2]) = true).
 Proof. exact percent_guards_inhabited. Qed.
 Print Assumptions C17_percent_guards_inhabited.
+
+(* ------------------------------------------------------------------ str.format *)
+(* fields in iter_replacement_fields order (nested ones included), any number of
+   positional arguments, any keyword names.
+   CPython raises (numbering switch, IndexError, KeyError)  ==>  _str_format_impl reports,
+   unless the template mixes automatic and manual numbering (C17-format-auto-manual-mix) *)
+Theorem C17_format_raise_reported : forall fs nargs kw,
+  mix_clause fs = false ->
+  py_fields_raise fs nargs kw AInit 0 = true ->
+  nonempty (pa_fields_check fs nargs kw) = true.
+Proof. exact format_raise_reported. Qed.
+Print Assumptions C17_format_raise_reported.
+
+(* reported  ==>  CPython raises, or every report is the documented
+   "... argument(s) were not used" rule; no guard needed *)
+Theorem C17_format_report_sound : forall fs nargs kw,
+  nonempty (pa_fields_check fs nargs kw) = true ->
+  py_fields_raise fs nargs kw AInit 0 = true \/ forallb is_unused (pa_fields_check fs nargs kw) = true.
+Proof. exact format_report_sound. Qed.
+Print Assumptions C17_format_report_sound.
+
+Theorem C17_format_raise_reported_refuted : ~ format_raise_reported_full_statement.
+Proof. exact format_raise_reported_refuted. Qed.
+Print Assumptions C17_format_raise_reported_refuted.
+
+(* "{} {0}".format(1): ValueError in CPython, nothing reported *)
+Theorem C17_format_mix_witness :
+  let fs := [mk_field ANone [] None false; mk_field (ANum 0) [] None false] in
+  py_fields_raise fs 1 [] AInit 0 = true /\ pa_fields_check fs 1 [] = [] /\ mix_clause fs = true.
+Proof. exact format_mix_witness. Qed.
+Print Assumptions C17_format_mix_witness.
+
+Example C17_format_examples :
+  pa_format_check [123; 125; 32; 123; 48; 125]%N 1 [] = Some (RFields []) /\
+  py_format_verdict [123; 125; 32; 123; 48; 125]%N 1 [] = VRaises /\
+  pa_format_check [123; 48; 125; 123; 49; 125]%N 1 [] = Some (RFields [FOutOfRange]) /\
+  py_format_verdict [123; 48; 125; 123; 49; 125]%N 1 [] = VRaises /\
+  pa_format_check [123; 97; 125]%N 0 [[97]; [98]]%N = Some (RFields [FUnusedNamed]) /\
+  py_format_verdict [123; 97; 125]%N 0 [[97]; [98]]%N = VFine /\
+  pa_format_check [123; 48; 33; 120; 125]%N 1 [] = Some (RParse 4 PUnknownConversion) /\
+  py_format_verdict [123; 48; 33; 120; 125]%N 1 [] = VRaises /\
+  py_format_verdict [123; 58; 123; 58; 123; 125; 125; 125]%N 3 [] = VRaises.
+Proof. exact format_examples. Qed.
+Print Assumptions C17_format_examples.
